@@ -81,8 +81,47 @@ var extraExplanations3 = map[string]string{
 	"C43": "R-TOKEN-TYPE-AGREES: every token OnDispatchStart returns has the dynamic type OnDispatchEnd asserts. R-METRIC-ATTRS-PER-CALL: the attribute option given to the instruments does not come from a sync.Map/Pool or an attribute cache field.",
 }
 
+// Rules added after the third seeding round (rules_seedfix5.go) — the generic lost-effect
+// rules of rules_generic.go / rules_memo.go are described once, in genericExplanation.
+var extraExplanations4 = map[string]string{
+	"C01": "R-ONE-ROW: ReadRequest tests the row count against 1 for (in)equality. R-TOKENS-INDEPENDENT: FindStreamTokens installs each of the two tokens under a test of that token alone.",
+	"C02": "R-DRAIN-ONLY-STREAM-CALLS: serveOne drains the input only under a guard on the method's kind. R-ANSWER-BEFORE-DRAIN: every drain of serveStream is dominated by an error answer.",
+	"C03": "R-TOKEN-BYTES-COVERED: every constant index / slice bound on the decoded token bytes in openToken is covered by a dominating len() guard on that slice. R-RESOLVE-ADOPTED-AFTER-CHECK: ResolveShmBatch's result is stored into the request only under its err == nil.",
+	"C04": "R-HANDLER-ERROR-IN-STREAM: handleUnary never passes the handler's own error to the bare HTTP error responder.",
+	"C05": "R-EXTRA-IS-JSON: every non-constant return of buildErrorExtra is json.Marshal output. R-KIND-VERBATIM: (*RpcError).ErrorKind returns the Kind field. R-STACK-ONLY-IN-ENVELOPE: debug.Stack/runtime.Stack are called only inside buildErrorExtra.",
+	"C07": "R-LIST-INDEX-AGREES: setListField reads an item's validity bit and its value at the same child position. R-GATE-BEFORE-EVERY-SUCCESS: no success return of deserializeParams is reachable without passing the Schema.Equal comparison.",
+	"C08": "R-LIST-INDEX-AGREES: see C07. R-NO-NARROW-ARITH: no 32-bit column value is multiplied before being widened. R-FLOAT-NO-RANGE-REFUSAL: the float encoders compare nothing with MaxFloat32.",
+	"C11": "R-CURSOR-ALWAYS-BOUND: the method-less cursor helper packCursorToken has no caller. R-CLIENT-KEEPS-CALL-TOKEN: the client replaces its call token only by a non-empty one. R-DEFAULT-LOG-LEVEL-AGREES: every dispatcher defaults an unspecified log level to the same constant.",
+	"C12": "R-TOKEN-BYTES-COVERED: see C03. R-CURSOR-VERBATIM: openCursorToken hands openToken the presented cursor itself.",
+	"C13": "R-IDENTITY-AS-AUTHENTICATED: authenticate substitutes Anonymous() only when no authenticator is configured. R-CACHE-ENTRIES-IMMUTABLE: callStateCache.put never rewrites the key of an indexed entry.",
+	"C14": "R-CURSOR-ALWAYS-BOUND: see C11.",
+	"C15": "R-CLIENT-KEEPS-CALL-TOKEN: see C11. R-CACHE-ENTRIES-IMMUTABLE: see C13.",
+	"C17": "R-CTORS-APPLY-LEVEL: every NewHttpServer* constructor goes through applyCompressionLevel. R-ACCEPT-SPLIT-UNBOUNDED: parseAcceptEncoding uses no bounded split. R-PROBE-SAME-LEVEL: SetCompressionLevel does not remap the level for its probe.",
+	"C18": "R-CAP-SINGLE-WRITER: maxDecompressedBodySize is written only by its setter. R-CODING-BEFORE-ACCEPT: every success return of readHTTPBody lies behind a comparison of the coding.",
+	"C19": "R-BUDGET-AFTER-BODY: each enforceResponseBudgets call in handleUnary is dominated by a response write into the measured buffer.",
+	"C20": "R-REQUEST-ID-ONE-SOURCE: every X-Request-ID response header value originates from resolveRequestID. R-ID-BOUND-ON-TRIMMED: the length bound in resolveRequestID applies to the TrimSpace result.",
+	"C21": "R-CLIENT-KEEPS-CALL-TOKEN: see C11. R-NON-2XX-IS-ERROR: post tests the status against 200 and 300. R-LOGS-NEVER-DATA: the log-envelope discard does not depend on a log handler being installed. R-EXCEPTION-SCAN-WHOLE-STREAM: firstStreamException loops over Next().",
+	"C24": "R-STATIC-KEYS-VERBATIM: BearerAuthenticateStatic applies no string transform. R-ELEMENT-FRESH: ParseXfcc creates its element record inside the per-element loop.",
+	"C25": "R-AGE-IN-SECONDS: VerifyProof never multiplies a parsed timestamp or a converted duration.",
+	"C26": "R-LIMITER-KEY-IS-CALLER: the limiter key is the principal (no concatenation). R-ALLOWLIST-EXACT: no string transform on principals.",
+	"C28": "R-VALUE-FROM-HEADER: parseQuotedParam works on the header as given. R-CHALLENGE-SINGLE-WRITER: wwwAuthenticate is written only by SetOAuthResourceMetadata. R-URL-ESCAPED: the metadata URL is URL.String().",
+	"C30": "R-LIMITS-IN-PLACE: arguments named after a callee parameter sit in that parameter's position (fetchExternalData, decompressZstdCapped). R-THRESHOLD-AGREES: predictor and externalizer compare size with the threshold identically. R-SCAN-OWN-METADATA: the resolve loop inspects each fetched record's own metadata.",
+	"C31": "R-LIMITS-IN-PLACE: see C30. R-VALIDATE-REAL-URL: the redirect hook hands the validator req.URL itself.",
+	"C35": "R-POINTER-BY-OFFSET-KEY: IsShmPointerBatch is decided by shm_offset alone. R-ATTACH-SIZE-EXACT: see C34.",
+	"C36": "R-READ-BOUND-IS-SEGMENT: ReadBatch bounds a region by s.size. R-SEGMENT-IDENTITY: a cached attachment is reused only for the same name and size.",
+	"C37": "R-UNARY-ERR-RECORDED: the error serveUnary reports is the error it wrote.",
+	"C38": "R-LINE-ATOMIC: writeRecord writes the sink under the hook's lock. R-PAYLOAD-CAPTURED-EVERYWHERE: no payload capture depends on the batch's shape. R-BYTES-AS-WRITTEN: the egress tally does not add the offered length.",
+	"C40": "R-REDACT-COPIES: RedactClaims never writes its input map. R-CLIENT-COPIED: fetchExternalData sets its redirect policy on a local copy of the client.",
+}
+
+const genericExplanation = "R-LOST-EFFECT family (rules_generic.go, rules_memo.go; reported under every property whose anchor files contain the construct): R-RECOVER-EFFECT-LOST — a deferred recover() records the panic in a variable nothing reads after the deferred call has run; R-ERROR-SHADOWED — `:=` redeclares, in a block that returns, an error variable whose outer instance a closure or pointer observes; R-HEADER-AFTER-STATUS — a header is set after WriteHeader on the same writer; R-MEMO-KEY-COMPLETE — a memo site absent from the reference inventory (refmemo.json) stores a value depending on inputs its key lacks (sync.Once: no key)."
+
 func applyExtraExplanations() {
-	for _, m := range []map[string]string{extraExplanations, extraExplanations2, extraExplanations3} {
+	for _, p := range registry {
+		p.Explanation += " Plus the generic lost-effect rules (R-RECOVER-EFFECT-LOST, R-ERROR-SHADOWED, R-HEADER-AFTER-STATUS, R-MEMO-KEY-COMPLETE; DESIGN §3) on this property's anchor files."
+	}
+	_ = genericExplanation
+	for _, m := range []map[string]string{extraExplanations, extraExplanations2, extraExplanations3, extraExplanations4} {
 		for id, extra := range m {
 			if p, ok := registry[id]; ok {
 				p.Explanation += " " + extra
